@@ -60,6 +60,11 @@ def exhaustive(ctx, out):
         last = tempo[-1][0]
         around = [x for t, _ in tempo for x in (t - 1, t, t + 1)] + [192, 1000, 768000, last % 2**32, last % 2**32 + 5] if last > 2**30 else []
         for tick in list(range(-1, min(last, 10) + 3)) + [last - 1, last, last + 1, last + 100] + around:
+            try:
+                ts0, idx0 = be.timestamp_at_tick(tick)
+                want0 = f"{ts0 // US} {idx0}"
+            except Exception as e:  # noqa: BLE001
+                want0 = impl.err_name(e)
             for h in (range(0, len(tempo) + 2) if len(tempo) <= 6 else [0, 1, 2, len(tempo) - 10, len(tempo) - 9, len(tempo) - 2, len(tempo) - 1, len(tempo)]):
                 if h < 0:
                     continue
@@ -71,9 +76,10 @@ def exhaustive(ctx, out):
                 except Exception as e:  # noqa: BLE001
                     i = impl.err_name(e)
                 reqs.append(f"tsat {res} {','.join(f'{t}:{n}' for t, n in tempo)} {tick} {h}")
-                meta.append((tempo, tick, h, i, be))
+                meta.append((tempo, tick, h, i, want0))
+        del be  # the map is released before the next one is built: whatever the library remembers about it must die with it
     mod = driver.run_parallel(reqs)
-    for (tempo, tick, h, i, be), m in zip(meta, mod):
+    for (tempo, tick, h, i, want), m in zip(meta, mod):
         rp = {"op": "hint", "res": res, "tempo": tempo, "tick": tick, "hint": h}
         g = gov(tempo, tick)
         out.case(fw.h(rp), h > 0, {"tempo": tempo, "tick": tick, "hint": h, "impl": i} if h > 0 and len(tempo) > 2 else None,
@@ -83,11 +89,6 @@ def exhaustive(ctx, out):
             out.corr_mismatch(f"timestamp_at_tick({tick}, hint={h}) on {tempo}", rp, impl=i, model=m)
         # promise
         if g is not None and h <= g:
-            try:
-                ts0, idx0 = be.timestamp_at_tick(tick)
-                want = f"{ts0 // US} {idx0}"
-            except Exception as e:  # noqa: BLE001
-                want = impl.err_name(e)
             if i != want or (not want.startswith("E") and int(want.split(" ")[1]) != g):
                 what = (f"hint {h} ≤ governing index {g} changed the answer for tick {tick}: {i} vs un-hinted {want}" if i != want else
                         f"tick {tick} is governed by tempo event {g} (the last one at or before it), the query — hinted {h} and un-hinted alike — answers {want}")
@@ -97,6 +98,36 @@ def exhaustive(ctx, out):
                 out.violation("hint-" + fw.h(rp), f"hint {h} beyond the governing event ({g}) of tick {tick} was not rejected: {i}",
                               rp, observed=i, promised="ValueError")
     out.exhaustive = True
+
+
+def recycled(ctx, out):
+    """maps that look alike from far away — same number of tempo events, same first and last tick, another tick in the middle — built,
+    queried and released in turn many times (a freed object's address is handed to the next one): each answers for its own ticks"""
+    rng = ctx.sub("recycled")
+    res = 192
+    for rnd in range(ctx.n(4, 60)):
+        mid = sorted(rng.sample(range(100, 900), 2))
+        A = [(0, 120000), (mid[0], 60000), (1000, 90000)]
+        B = [(0, 120000), (mid[1], 60000), (1000, 90000)]
+        for k in range(ctx.n(150, 600)):
+            tempo = A if k % 2 == 0 else B
+            be = C01.build_bpm_events(res, tempo)
+            tick = rng.choice([mid[0], mid[1], mid[0] - 1, mid[1] - 1, (mid[0] + mid[1]) // 2, 999, 1000])
+            g = gov(tempo, tick)
+            out.case(fw.h(["rc", rnd, k]), True, None, tags=["recycled-address"])
+            bad = None
+            for h in (0, g):
+                try:
+                    ts, idx = be.timestamp_at_tick(tick, start_iteration_index=h)
+                    if idx != g:
+                        bad = f"hint {h}: governing index {idx}, the last tempo event at or before tick {tick} is #{g}"
+                except Exception as e:  # noqa: BLE001
+                    bad = f"hint {h} ≤ governing index {g} raised {impl.err_name(e)}"
+            del be
+            if bad:
+                out.violation("recycled-" + fw.h([A, B, k, tick]), f"after {k} maps built and released in turn, the map {tempo} answers for tick {tick}: {bad}",
+                              {"op": "recycled", "A": A, "B": B, "rounds": k + 1, "tick": tick}, observed=bad, promised=f"index {g}")
+                break
 
 
 def charts(ctx, out):
@@ -237,6 +268,7 @@ def switches(ctx, out):
 
 def slice(ctx: fw.Ctx) -> fw.Outcome:
     out = fw.Outcome(RULE)
+    recycled(ctx, out)
     exhaustive(ctx, out)
     charts(ctx, out)
     switches(ctx, out)
@@ -244,6 +276,20 @@ def slice(ctx: fw.Ctx) -> fw.Outcome:
 
 
 def replay(ctx: fw.Ctx, data: dict):
+    if data.get("op") == "recycled":
+        A, B = [tuple(x) for x in data["A"]], [tuple(x) for x in data["B"]]
+        for k in range(max(600, data["rounds"])):
+            tempo = A if k % 2 == 0 else B
+            be = C01.build_bpm_events(192, tempo)
+            for tick in (data["tick"], A[1][0], B[1][0]):
+                g = gov(tempo, tick)
+                try:
+                    if be.timestamp_at_tick(tick)[1] != g:
+                        return True, f"round {k}: tick {tick} index != {g}"
+                except Exception as e:  # noqa: BLE001
+                    return True, impl.err_name(e)
+            del be
+        return False, "every map answered for its own ticks"
     if data.get("op") == "hint":
         tempo = [tuple(t) for t in data["tempo"]]
         g = gov(tempo, data["tick"])
